@@ -257,6 +257,34 @@ func oracleC03(s *gtfs.Static, f *sfeed) string {
 }
 
 // malformed-leaning mutations for C03 / C05: dangling, blank and duplicate ids, parent cycles
+// lateDuplicateCycle: a stop id listed a second time at the end of stops.txt, the second listing naming as its parent a
+// stop below the first listing (or the id itself). References resolve to the LAST row carrying an id, so this closes a
+// cycle although every parent_station of the file names an id that was already listed when its row is read.
+func (g *gen) lateDuplicateCycle(f *sfeed) {
+	t := f.table("stops.txt")
+	if t == nil || len(t.rows) == 0 {
+		return
+	}
+	i := g.r.Intn(len(t.rows))
+	id := t.rows[i]["stop_id"]
+	parent := id
+	var below []string
+	for _, r := range t.rows {
+		if r["parent_station"] == id && r["stop_id"] != id {
+			below = append(below, r["stop_id"])
+		}
+	}
+	if len(below) > 0 && g.coin(0.7) {
+		parent = below[g.r.Intn(len(below))]
+	}
+	cp := srow{}
+	for k, v := range t.rows[i] {
+		cp[k] = v
+	}
+	cp["parent_station"] = parent
+	t.rows = append(t.rows, cp)
+}
+
 func (g *gen) corruptRefs(f *sfeed) {
 	pickRow := func(name string) srow {
 		if t := f.table(name); t != nil && len(t.rows) > 0 {
@@ -418,7 +446,11 @@ func engineStatic(which string) engineFn {
 				}
 			case "C03":
 				ff := f.clone()
-				g.corruptRefs(ff)
+				if g.coin(0.25) {
+					g.lateDuplicateCycle(ff) // and nothing else: no dangling, forward or plain self reference anywhere in the file
+				} else {
+					g.corruptRefs(ff)
+				}
 				p := canonicalPresentation(ff)
 				ms := renderFeed(nil, p, ff)
 				r := runStatic(ms, false, inherit)
@@ -435,6 +467,25 @@ func engineStatic(which string) engineFn {
 				}
 				if msg := oracleC03(base.s, f); msg != "" {
 					ctx.violate("c03-references", msg, replay)
+				}
+				if i == 1 {
+					// a feed with more stops than a 16-bit index can number, the stations and platforms listed after them
+					big := f.clone()
+					st := big.table("stops.txt")
+					var fill []srow
+					for k, nf := 0, 65536+g.r.Intn(40); k < nf; k++ {
+						fill = append(fill, srow{"stop_id": fmt.Sprintf("filler-%d", k), "stop_code": "", "stop_name": "filler", "stop_desc": "", "stop_lat": "1.5", "stop_lon": "2.5", "zone_id": "", "stop_url": "",
+							"location_type": "0", "parent_station": "", "stop_timezone": "", "wheelchair_boarding": "0", "platform_code": ""})
+					}
+					st.rows = append(fill, st.rows...)
+					mb := renderFeed(nil, canonicalPresentation(big), big)
+					if rb := runStatic(mb, false, inherit); rb.err == nil && !rb.cr.panicked && !rb.cr.hung {
+						ctx.evaluations++
+						if msg := oracleC03(rb.s, big); msg != "" {
+							ctx.violate("c03-references", msg, map[string]any{"members": "the feed below with 65536+ filler stops (filler-0 ...) listed before its own stops", "base_members": describeMembers(ms0), "fillers": len(fill)})
+						}
+						stats["big_stop_tables"]++
+					}
 				}
 			case "C08":
 				for k := 0; k < 3; k++ {
@@ -523,7 +574,11 @@ func engineStatic(which string) engineFn {
 					t := ff.table(name)
 					pos := g.r.Intn(len(t.rows) + 1)
 					ins1 := []srow{row}
-					for g.coin(0.4) && len(ins1) < 4 { // runs of identical rejected rows (same unknown id on consecutive rows)
+					runMax := 4
+					if g.coin(0.06) {
+						runMax = 101 + g.r.Intn(60) // and long runs: the hundred-and-first rejected row of a file is rejected like the first
+					}
+					for (runMax > 4 || g.coin(0.4)) && len(ins1) < runMax { // runs of identical rejected rows (same unknown id on consecutive rows)
 						cp := srow{}
 						for kk, vv := range row {
 							cp[kk] = vv
@@ -636,6 +691,14 @@ func engineStatic(which string) engineFn {
 					for _, r := range ta.rows {
 						delete(r, db.col)
 					}
+					if g.coin(0.5) {
+						// an UNKNOWN column whose name differs from the omitted one only by white space is still an unknown column
+						look := g.pick([]string{" " + db.col, db.col + " ", "\t" + db.col, db.col + "\u00a0", " " + db.col + " "})
+						ta.cols = append(ta.cols, look)
+						for _, r := range ta.rows {
+							r[look] = g.pick([]string{"2", "1", "00FF00", "3"})
+						}
+					}
 					var dumps [][]string
 					var mss [][]member
 					okAll := true
@@ -713,11 +776,83 @@ func engineStatic(which string) engineFn {
 						}
 					}
 				}
+				// (d) the same on a hierarchy with self / mutual parents, duplicates and dangling references: whatever parent links the
+				// result has, a stop without a (station) parent in the result keeps its own value, and nothing but wheelchair boarding differs
+				if g.coin(0.5) {
+					hf := f.clone()
+					g.corruptRefs(hf)
+					for _, r := range hf.table("stops.txt").rows {
+						if g.coin(0.5) {
+							r["wheelchair_boarding"] = g.pick([]string{"", "0", "1", "2"})
+						}
+						if g.coin(0.4) {
+							r["location_type"] = "1"
+						}
+					}
+					if st := hf.table("stops.txt"); len(st.rows) >= 2 && g.coin(0.6) {
+						// a station with a value that is its own ancestor (alone or with a partner), and stops below it without a value
+						si := g.r.Intn(len(st.rows))
+						S := st.rows[si]
+						S["location_type"], S["wheelchair_boarding"], S["parent_station"] = "1", g.pick([]string{"1", "2"}), S["stop_id"]
+						if g.coin(0.4) {
+							T := st.rows[(si+1)%len(st.rows)]
+							T["location_type"], T["wheelchair_boarding"] = "1", g.pick([]string{"", "1", "2"})
+							S["parent_station"], T["parent_station"] = T["stop_id"], S["stop_id"]
+						}
+						for k, r := range st.rows {
+							if k != si && r["parent_station"] != S["stop_id"] && g.coin(0.5) && r["stop_id"] != S["parent_station"] {
+								r["parent_station"], r["wheelchair_boarding"] = S["stop_id"], ""
+							}
+						}
+					}
+					ms := renderFeed(nil, canonicalPresentation(hf), hf)
+					off, on := runStatic(ms, false, false), runStatic(ms, false, true)
+					ctx.evaluations++
+					if off.err == nil && on.err == nil && !off.cr.panicked && !on.cr.panicked && !off.cr.hung && !on.cr.hung && len(off.s.Stops) == len(on.s.Stops) {
+						rp := map[string]any{"members": describeMembers(ms)}
+						mask := func(l []string) []string {
+							var out []string
+							for _, x := range l {
+								if strings.HasPrefix(x, "stop ") {
+									if k := strings.Index(x, " wb="); k >= 0 {
+										x = x[:k] + " wb=*" + x[k+5:]
+									}
+								}
+								out = append(out, x)
+							}
+							return out
+						}
+						if d := diffLines(mask(dumpStatic(on.s)), mask(dumpStatic(off.s))); d != "" {
+							ctx.violate("c10-inheritance", "enabling inheritance changes something other than wheelchair boarding: "+d, rp)
+						}
+						for i := range on.s.Stops {
+							a, b := &off.s.Stops[i], &on.s.Stops[i]
+							switch {
+							case a.WheelchairBoarding != gtfs.WheelchairBoarding_NotSpecified && b.WheelchairBoarding != a.WheelchairBoarding:
+								ctx.violate("c10-inheritance", fmt.Sprintf("stop %q has its own wheelchair-boarding value %d, with inheritance it becomes %d", a.Id, a.WheelchairBoarding, b.WheelchairBoarding), rp)
+							case a.WheelchairBoarding == gtfs.WheelchairBoarding_NotSpecified && (b.Parent == nil || b.Parent.Type != gtfs.StopType_Station) && b.WheelchairBoarding != gtfs.WheelchairBoarding_NotSpecified:
+								ctx.violate("c10-inheritance", fmt.Sprintf("stop %q has no parent station in the result, yet with inheritance its unspecified wheelchair boarding becomes %d", a.Id, b.WheelchairBoarding), rp)
+							}
+						}
+						addCase(true, ms, on.s, feedZones(hf))
+					}
+				}
 			case "C11":
 				// calendars profile: more services and exceptions before / inside / after the range, odd exception types, unloadable zone
 				ff := f.clone()
 				if g.coin(0.3) {
-					ff.table("agency.txt").rows[0]["agency_timezone"] = g.pick([]string{"Not/AZone", "Mars/Olympus", "EST5EDT"})
+					// the first agency's zone decides, also when it cannot be loaded (then UTC) and a later agency has a perfectly good one
+					ag := ff.table("agency.txt")
+					ag.rows[0]["agency_timezone"] = g.pick([]string{"Not/AZone", "Mars/Olympus", "EST5EDT"})
+					if len(ag.rows) < 2 {
+						extra := srow{}
+						for kk, vv := range ag.rows[0] {
+							extra[kk] = vv
+						}
+						extra["agency_id"], extra["agency_name"] = "AG-LATER", "later agency"
+						ag.rows = append(ag.rows, extra)
+					}
+					ag.rows[1]["agency_timezone"] = g.pick([]string{"America/New_York", "Asia/Kolkata", "Australia/Sydney", "Europe/London"})
 				}
 				cd := ff.table("calendar_dates.txt")
 				var svcIDs []string
@@ -725,6 +860,30 @@ func engineStatic(which string) engineFn {
 					svcIDs = append(svcIDs, t["service_id"])
 				}
 				if g.coin(0.2) {
+					// an exception exactly one calendar day outside the range, across the 23-hour day on which the zone springs forward
+					z, d0, d1 := "America/New_York", "20240310", "20240311"
+					if g.coin(0.4) {
+						z, d0, d1 = g.pick([]string{"Europe/London", "Europe/London"}), "20240331", "20240401"
+					}
+					for _, a := range ff.table("agency.txt").rows {
+						a["agency_timezone"] = z
+					}
+					if cal := ff.table("calendar.txt"); cal != nil && len(cal.rows) > 0 && g.coin(0.6) {
+						if g.coin(0.5) {
+							cal.rows[0]["start_date"], cal.rows[0]["end_date"] = "20240101", d0
+							cd.rows = append(cd.rows, srow{"service_id": cal.rows[0]["service_id"], "date": d1, "exception_type": g.pick([]string{"1", "2"})})
+						} else {
+							cal.rows[0]["start_date"], cal.rows[0]["end_date"] = d1, "20241231"
+							cd.rows = append(cd.rows, srow{"service_id": cal.rows[0]["service_id"], "date": d0, "exception_type": g.pick([]string{"1", "2"})})
+						}
+					} else {
+						a, b := d0, d1
+						if g.coin(0.5) {
+							a, b = d1, d0
+						}
+						cd.rows = append([]srow{{"service_id": "DST-DAYS", "date": a, "exception_type": "1"}, {"service_id": "DST-DAYS", "date": b, "exception_type": g.pick([]string{"1", "2"})}}, cd.rows...)
+					}
+				} else if g.coin(0.2) {
 					// dates are dates whatever the year: a range or a first exception on 0001-01-01 (in UTC the zero value of
 					// Go's time.Time) is a date like any other
 					for _, a := range ff.table("agency.txt").rows {
